@@ -94,7 +94,57 @@ def path_conditions(func_node: ast.AST, target: ast.AST) -> list[tuple[ast.AST, 
 		if isinstance(par, (ast.FunctionDef, ast.AsyncFunctionDef, ast.Lambda)):
 			break
 		cur = par
-	return out
+	# drop facts about variables that are re-assigned between the test and the target (the walk above is otherwise flow-insensitive)
+	hi = (getattr(target, 'lineno', 0), getattr(target, 'col_offset', 0))
+	own_stmt = target
+	while not isinstance(own_stmt, ast.stmt) and id(own_stmt) in pm:
+		own_stmt = pm[id(own_stmt)]
+	fresh = []
+	for t, pol in out:
+		lo = (getattr(t, 'end_lineno', None) or getattr(t, 'lineno', 0), getattr(t, 'end_col_offset', None) or 0)
+		if hasattr(t, 'lineno') and lo < hi and _killed(func_node, t, lo, hi, own_stmt):
+			continue
+		fresh.append((t, pol))
+	return fresh
+
+
+def _killed(func_node: ast.AST, test: ast.AST, lo: tuple[int, int], hi: tuple[int, int], own_stmt: ast.AST | None) -> bool:
+	"""a variable read by `test` is re-bound between the point where the test was evaluated (lo) and the program point of interest (hi): the fact is stale.
+	Targets of the simple statement that contains the point of interest are bound after its value is evaluated and do not count."""
+	names = {n.id for n in ast.walk(test) if isinstance(n, ast.Name)}
+	if not names:
+		return False
+	own = {id(x) for x in ast.walk(own_stmt)} if isinstance(own_stmt, (ast.Assign, ast.AugAssign, ast.AnnAssign)) else set()
+	pm = parent_map(func_node)
+
+	def chain(x: ast.AST) -> list[ast.AST]:
+		out = [x]
+		while id(out[-1]) in pm:
+			out.append(pm[id(out[-1])])
+		return out
+
+	tchain = chain(own_stmt) if own_stmt is not None else []
+	tids = {id(x): i for i, x in enumerate(tchain)}
+	for n in ast.walk(func_node):
+		if isinstance(n, ast.Name) and isinstance(n.ctx, (ast.Store, ast.Del)) and n.id in names and lo < (n.lineno, n.col_offset) < hi and id(n) not in own:
+			# a store in the other arm of an if statement that also contains the point of interest is not on the path
+			sch = chain(n)
+			exclusive = False
+			for j, a in enumerate(sch):
+				if id(a) in tids and isinstance(a, ast.If) and j > 0 and tids[id(a)] > 0:
+					s_child, t_child = sch[j - 1], tchain[tids[id(a)] - 1]
+					s_in_body = any(s_child is x for x in a.body)
+					t_in_body = any(t_child is x for x in a.body)
+					s_in_else = any(s_child is x for x in a.orelse)
+					t_in_else = any(t_child is x for x in a.orelse)
+					if (s_in_body and t_in_else) or (s_in_else and t_in_body):
+						exclusive = True
+					break
+				if id(a) in tids:
+					break
+			if not exclusive:
+				return True
+	return False
 
 
 def conjuncts(test: ast.AST, polarity: bool) -> list[tuple[ast.AST, bool]]:
